@@ -20,7 +20,10 @@ CHECKS["C02"] = dict(cat="fault_enumeration", ref="4 C02", engine="fault-enumera
     text="Every SQL statement boundary of the enumerated blocks (before BEGIN, before each statement, before COMMIT, right after COMMIT) is a "
          "crash point: the real daemon is SIGKILLed there, a fresh process reads the database, the run is resumed; each experiment is replayed "
          "by TLC through Sync.tla (DiskIsPrefix, OnceInOrder, MemNotBehind evaluated in every state). Sync.tla itself is model-checked "
-         "exhaustively with crashes and faults at every pc, including liveness, and its deviation switches are shown to be caught.",
+         "exhaustively with crashes and faults at every pc, including liveness, and its deviation switches are shown to be caught. Block failure "
+         "instead of process death is covered too: the statements at the edges of every block's transaction (BEGIN .. COMMIT) and the upstream requests of "
+         "the blocks fail once each; the faulted process then goes on for two more blocks, and the database it leaves must hold whole blocks only, one "
+         "version row per height, before the resumed run is compared with the uninterrupted one.",
     note="Process kill only: SQLite's atomic commit and the file system are trusted (no power loss / torn pages). Reference = uninterrupted "
          "run of the same chain by the same build. Trusted: TLC, sqlwrap driver wrapper (checked not to perturb results), fake factomd.",
     technique="TLA+ spec of the sync loop (Sync.tla) + TLC exhaustive + crash-point enumeration replayed through the spec")
@@ -97,13 +100,16 @@ CHECKS["C10"] = dict(cat="fault_enumeration", ref="4 C10", engine="fault-enumera
 CHECKS["C01"] = dict(cat="model_checking", ref="4 C01",
     text="MC_Determinism (TLC) exhausts all stake vectors with independent tie orders on two replicas (Agree holds with the address tie-break, counterexample "
          "without); chains biased to exact ties (capped staking payout with equal largest stakes, tied PEG requests) and general chains are replayed by K "
-         "independent daemon processes (fresh hash seeds, different GOMAXPROCS) and all ledger tables compared; one replica per chain is validated by TLC.",
+         "independent daemon processes (fresh hash seeds, different GOMAXPROCS, every second one stopped and restarted at every third height so that the "
+         "process that computed a block differs) and all ledger tables compared; one replica per chain is validated by TLC.",
     technique="TLA+ two-replica model (MC_Determinism) + TLC exhaustive + K-replica replay of real chains with dump comparison")
 
 CHECKS["C18"] = dict(cat="model_checking", ref="4 C18", engine="tlc+gate-scheduler+race-detector",
     text="Api.tla (TLC) interleaves the sync loop with two readers at the critical sections of the averages cache and of the height publication and proves "
-         "LedgerUnaffected, RespCommitted, NoTornCache (the unlocked / publish-early variants yield counterexamples); two schedules taken from those "
-         "counterexamples are replayed deterministically on the real daemon with gate hooks, all read methods are hammered concurrently during a full sync "
+         "LedgerUnaffected, RespCommitted, NoTornCache, InOrder, including a COMMIT that fails and a reader whose read fails inside the cache function (the "
+         "unlocked / publish-early / publish-on-failure variants yield counterexamples); five schedules taken from those counterexamples (reader between "
+         "bump and COMMIT, reader suspended inside the cache function, reader right after a failed COMMIT, reader whose client hangs up resp. whose read "
+         "of pn_rate fails inside the cache function) are replayed deterministically on the real daemon with gate hooks, all read methods are hammered concurrently during a full sync "
          "under the race detector, final ledgers are compared with a reader-free run and the observations validated by TLC (Trace_Api).",
     note="Gate hooks (build tag verif) and the race detector only witness schedules that occur; infeasible schedules (second goroutine blocked on the lock) "
          "are recorded, not failed. Trusted: TLC, Go race detector, harness scheduler.",
